@@ -208,7 +208,7 @@ Definition files_C15 : list string := ["src/bin/roughenough-server.rs"; "src/ser
 Definition files_C16 : list string := ["src/config/mod.rs"; "src/config/file.rs"; "src/config/environment.rs"].
 Definition files_C17 : list string := ["src/stats/per_client.rs"; "src/stats/mod.rs"; "src/stats/reporter.rs"].
 Definition files_C18 : list string := ["src/bin/roughenough-server.rs"; "src/server.rs"].
-Definition files_C19 : list string := ["src/bin/roughenough-server.rs"; "src/stats/reporter.rs"].
+Definition files_C19 : list string := ["src/bin/roughenough-server.rs"; "src/stats/reporter.rs"; "src/server.rs"].
 Definition files_C20 : list string := ["src/config/mod.rs"; "src/config/file.rs"].
 
 Definition reviewed_literals : list (string * string * list N) := [
